@@ -259,6 +259,7 @@ func (c *Conn) writeFrame(ctx context.Context, fin bool, flate bool, opcode opco
 	case <-c.closed:
 		return 0, net.ErrClosed
 	case c.writeTimeout <- ctx:
+		verifEvent(c, "sync:arm-write-own", nil)
 	}
 
 	defer func() {
@@ -276,6 +277,7 @@ func (c *Conn) writeFrame(ctx context.Context, fin bool, flate bool, opcode opco
 
 	if opcode == opClose {
 		c.closeSent = true
+		verifEvent(c, "sync:set-closeSent", nil)
 	}
 	c.writeHeader.fin = fin
 	c.writeHeader.opcode = opcode
@@ -299,6 +301,7 @@ func (c *Conn) writeFrame(ctx context.Context, fin bool, flate bool, opcode opco
 	if err != nil {
 		return 0, err
 	}
+	verifFrameEvent(c, "sync:wr-begin", int(opcode), fin)
 
 	n, err := c.writeFramePayload(p)
 	if err != nil {
@@ -311,6 +314,7 @@ func (c *Conn) writeFrame(ctx context.Context, fin bool, flate bool, opcode opco
 			return n, fmt.Errorf("failed to flush: %w", err)
 		}
 	}
+	verifFrameEvent(c, "sync:wr-end", int(opcode), fin)
 
 	select {
 	case <-c.closed:
@@ -319,6 +323,7 @@ func (c *Conn) writeFrame(ctx context.Context, fin bool, flate bool, opcode opco
 		}
 		return n, net.ErrClosed
 	case c.writeTimeout <- context.Background():
+		verifEvent(c, "sync:arm-write-bg", nil)
 	}
 
 	return n, nil
